@@ -362,9 +362,7 @@ def run_fuzz(pid, tier, seed, replay=None):
         wall = time.time() - t0
         known_hit = dict(tot["known"])
         listed = {k["signature"]: k for k in open_known(pid)}
-        for sig, cnt in sorted(known_hit.items()):
-            if sig in listed:
-                print("KNOWN-FINDING: property=%s %s [signature %s, seen %d times]" % (pid, listed[sig]["what"], sig, cnt))
+        driver.print_known(pid, listed, known_hit)
         execs = sum(v.get("execs", 0) for v in lf_stats.values())
         cov = {
             "evaluations": max(tot["cases"], execs) + replayed,
@@ -474,9 +472,7 @@ def run_py(pid, tier, seed, replay=None):
                 else:
                     log("failure of worker %d reproduced %d/3 times only - dropped as schedule-dependent noise: %s" % (w, ok, d["failure"]["msg"][:300]))
         listed = {k["signature"]: k for k in open_known(pid)}
-        for sig, cnt in sorted(tot["known"].items()):
-            if sig in listed:
-                print("KNOWN-FINDING: property=%s %s [signature %s, seen %d times]" % (pid, listed[sig]["what"], sig, cnt))
+        driver.print_known(pid, listed, tot["known"])
         wall = time.time() - t0
         cov = {"evaluations": tot["invocations"], "distinct_nontrivial": tot["nontrivial"], "rule": P["rule"],
                "samples": tot["samples"][:8] or ["(none)"], "generated_cases": tot["examples"], "classes": tot["classes"],
